@@ -1240,6 +1240,15 @@ func (env *Env) UnfoldSpec(x Expr) (s string, err error) {
 	if !ok {
 		return "", fmt.Errorf("unfold needs a spec function application")
 	}
+	if id.Name == "atentry" && len(call.Args) == 1 {
+		// unfold atentry(f(args)): the instance over the function's entry memory (current locals)
+		if env.old == nil {
+			return "", fmt.Errorf("unfold atentry(): not available here")
+		}
+		a := *env
+		a.mem = env.old.mem
+		return a.UnfoldSpec(call.Args[0])
+	}
 	sp := env.c.specs.lookup(id.Name)
 	if sp == nil || sp.Body == nil {
 		return "", fmt.Errorf("unfold: %s is not a defined spec function", id.Name)
